@@ -9,14 +9,25 @@
 (* DualProjW / UPGradW (or u below the norm_eps threshold); a rejected      *)
 (* episode names the first failing clause of the KKT system evaluated       *)
 (* exactly on the logged weights.  Verdicts are total.                      *)
+(*                                                                         *)
+(* Presentations and histories (DualCone.tla, section of that name): every  *)
+(* episode also logs the dtype the preference vector was given in (pdt;     *)
+(* "none" = default preference), the tensor OBJECT that carried the matrix  *)
+(* (obj; tmode = "reused": the instance was written in place into an object *)
+(* of an earlier episode, whose former content the driver read back into    *)
+(* `before`) and the aggregator OBJECT that was called (aobj / amode).  The  *)
+(* trace specification keeps what every object holds (held, made), rejects  *)
+(* a log whose claimed history is not the one it reconstructs (MALFORMED,   *)
+(* a machinery failure) and accepts an episode on the CURRENT content only: *)
+(* the expected weights do not depend on the presentation or the history.   *)
 (***************************************************************************)
 EXTENDS DualCone, IOUtils, TLCExt
 
 Episodes == JsonDeserialize(IOEnv.TRACE_FILE)
 NEp      == Len(Episodes)
 
-VARIABLES ep, nAcc, nRej, nSkip
-tvars == <<fam, ents, phase, res, ep, nAcc, nRej, nSkip>>
+VARIABLES ep, nAcc, nRej, nSkip, held, made
+tvars == <<fam, ents, phase, res, ep, nAcc, nRej, nSkip, held, made>>
 
 E == Episodes[ep]
 
@@ -67,23 +78,39 @@ ConeBad(e) ==
         ELSE IF e.w = <<>> \/ ~SmallW(e.w) THEN "unknown"
         ELSE IF \E i \in 1..Len(e.J) : RSign(AwL(A, e.w)[i]) < 0 THEN "yes" ELSE "no"
 
+\* what the call was made with, as far as the objects are concerned
+Content(e) == [J |-> e.J, e |-> e.e]
+Args(e)    == [agg |-> e.agg, u |-> e.u, a |-> e.a, reg |-> e.reg, pdt |-> e.pdt]
+
+\* the log's claimed presentation / history is the one reconstructed from the earlier episodes
+WellFormed(e) ==
+    /\ e.pdt = "none" \/ (e.pdt \in {PrefDtypes[k] : k \in DOMAIN PrefDtypes} /\ Presentable(e.u, e.pdt))
+    /\ IF e.tmode = "reused" THEN e.obj \in DOMAIN held /\ held[e.obj] = e.before
+                             ELSE e.tmode = "fresh" /\ e.obj \notin DOMAIN held
+    /\ IF e.amode = "reused" THEN e.aobj \in DOMAIN made /\ made[e.aobj] = Args(e)
+                             ELSE e.amode = "fresh" /\ e.aobj \notin DOMAIN made
+
 TInit == /\ fam = [m |-> 1, n |-> 1, e |-> 0] /\ ents = <<>> /\ phase = "trace" /\ res = <<>>
-         /\ ep = 1 /\ nAcc = 0 /\ nRej = 0 /\ nSkip = 0
+         /\ ep = 1 /\ nAcc = 0 /\ nRej = 0 /\ nSkip = 0 /\ held = <<>> /\ made = <<>>
 
 Step(acc, rej, skip) == /\ ep' = ep + 1 /\ nAcc' = nAcc + acc /\ nRej' = nRej + rej /\ nSkip' = nSkip + skip
+                        /\ held' = [x \in DOMAIN held \cup {E.obj} |-> IF x = E.obj THEN Content(E) ELSE held[x]]
+                        /\ made' = [x \in DOMAIN made \cup {E.aobj} |-> IF x = E.aobj THEN Args(E) ELSE made[x]]
                         /\ UNCHANGED <<fam, ents, phase, res>>
 
-TSkip   == ep <= NEp /\ ~InFamily(E)
+TMalformed == ep <= NEp /\ ~WellFormed(E)
+              /\ PrintT(<<"MALFORMED", ToJson([ep |-> E.ep])>>) /\ Step(0, 0, 1)
+TSkip   == ep <= NEp /\ WellFormed(E) /\ ~InFamily(E)
            /\ PrintT(<<"SKIP", ToJson([ep |-> E.ep])>>) /\ Step(0, 0, 1)
-TAccept == ep <= NEp /\ InFamily(E) /\ E.w = Expected(E) /\ Step(1, 0, 0)
-TReject == ep <= NEp /\ InFamily(E) /\ E.w # Expected(E)
+TAccept == ep <= NEp /\ WellFormed(E) /\ InFamily(E) /\ E.w = Expected(E) /\ Step(1, 0, 0)
+TReject == ep <= NEp /\ WellFormed(E) /\ InFamily(E) /\ E.w # Expected(E)
            /\ PrintT(<<"REJECT", ToJson([ep |-> E.ep, clause |-> Failing(E), expected |-> Expected(E), cone |-> ConeBad(E)])>>)
            /\ Step(0, 1, 0)
 TDone   == ep = NEp + 1 /\ phase = "trace"
            /\ PrintT(<<"SUMMARY", ToJson([episodes |-> NEp, accepted |-> nAcc, rejected |-> nRej, skipped |-> nSkip])>>)
-           /\ phase' = "end" /\ UNCHANGED <<fam, ents, res, ep, nAcc, nRej, nSkip>>
+           /\ phase' = "end" /\ UNCHANGED <<fam, ents, res, ep, nAcc, nRej, nSkip, held, made>>
 
-TNext == TSkip \/ TAccept \/ TReject \/ TDone
+TNext == TMalformed \/ TSkip \/ TAccept \/ TReject \/ TDone
 TraceSpec == TInit /\ [][TNext]_tvars
 
 TraceConsumed == (phase = "end") => (nAcc + nRej + nSkip = NEp)
